@@ -100,7 +100,7 @@ Definition show_bres (r : res_t bool) : string :=
 
 Definition show_ord (o : qordering) : string :=
   match o with
-  | OIncompatible => "C:i" | ONan => "C:n" | OPanic => "P"
+  | OIncompatible => "C:i" | ONan => "C:n"
   | OOk Lt => "C:<" | OOk Eq => "C:=" | OOk Gt => "C:>"
   end.
 
